@@ -6,7 +6,7 @@
    registered for it; [pl] = where grant_type, the client parameters and the grant artefact travel
    (body / URL query / both) - every statement holds for every placement. All statements are relative to the storage contract written as
    [secret_ok] / [assertion_ok] in C05_Model.v. *)
-From OIDC Require Import Lib C05_Model C05_spec C05_proofs.
+From OIDC Require Import Lib C05_Model C05_spec C05_proofs C05_near_proofs.
 
 (* Token endpoint, every router, configuration, registration, presentation and grant_type
    outside the recorded gap: a 2xx answer implies provider flag / storage capability on,
@@ -162,3 +162,50 @@ Theorem C05_disabled_grant_refused : forall r c rg p g pl pv,
   capability c g = false -> names_other p = false -> success (model (mkInput r EToken c rg p g pl pv)) = false.
 Proof. exact disabled_grant_refused. Qed.
 Print Assumptions C05_disabled_grant_refused.
+
+(* White space and near misses. Secrets and ids are compared byte by byte once the transport
+   encoding (base64, %XX, "+") is removed: [SBlank] = a secret that is nothing but white space,
+   [SNear] = the right secret with surrounding white space / other letter case / a case-fold
+   twin / a trailing slash / one byte more or fewer, [PNearId sl s] = such a near miss of X's id
+   (in the Basic header or the form) next to secret s.  None of them is "the right secret"
+   ([presents_right_secret]) or names X ([identifies]).
+   A client that is not public obtains nothing, anywhere authentication is needed, without its
+   exact secret or a valid assertion ... *)
+Theorem C05_not_public_needs_credential : forall r e c rg p g pl pv,
+  r_meth rg <> MNone -> presents_right_secret p = false -> presents_ok_assertion p = false ->
+  e <> EDeviceAuthz -> g <> GBearer ->
+  success (model (mkInput r e c rg p g pl pv)) = false.
+Proof. exact not_public_needs_credential. Qed.
+Print Assumptions C05_not_public_needs_credential.
+
+(* ... on introspection, token exchange and client_credentials no client at all does: the
+   white-space-only secret does not stand in for the empty stored secret of a public or
+   private_key_jwt client ([only_wrong_secrets p]: any mixture of blank, near-miss, wrong and
+   empty secrets in header and form satisfies the two premises) ... *)
+Theorem C05_no_credential_no_authentication : forall r e c rg p g pl pv,
+  presents_right_secret p = false -> presents_ok_assertion p = false ->
+  e = EIntrospect \/ (e = EToken /\ (g = GTE \/ g = GCC)) ->
+  success (model (mkInput r e c rg p g pl pv)) = false.
+Proof. exact no_credential_no_authentication. Qed.
+Print Assumptions C05_no_credential_no_authentication.
+
+Theorem C05_only_wrong_secrets_presents_nothing : forall p,
+  only_wrong_secrets p = true -> presents_right_secret p = false /\ presents_ok_assertion p = false.
+Proof. exact only_wrong_secrets_presents_nothing. Qed.
+Print Assumptions C05_only_wrong_secrets_presents_nothing.
+
+(* ... and a near miss of X's id is nobody's id: whatever secret accompanies it (X's exact one
+   included), for every registration of X (a public X included), nothing is obtained on any
+   endpoint, in the Basic header, the form, or as issuer of the client assertion / of the
+   jwt-bearer grant assertion. *)
+Theorem C05_near_id_refused : forall r e c rg sl s g pl pv,
+  success (model (mkInput r e c rg (PNearId sl s) g pl pv)) = false.
+Proof. exact near_id_refused. Qed.
+Print Assumptions C05_near_id_refused.
+
+(* As coded, a blank or near-miss secret is one more wrong secret: not empty, never a match. *)
+Theorem C05_blank_and_near_are_wrong : forall rg s,
+  s = SBlank \/ s = SNear ->
+  storage_secret_ok rg s = false /\ secret_ok rg s = false /\ cc_secret_ok rg s = false /\ nonempty s = Some s.
+Proof. exact blank_and_near_are_wrong. Qed.
+Print Assumptions C05_blank_and_near_are_wrong.
